@@ -38,11 +38,11 @@ fn method(frag: i64, key: i64) -> VerificationMethod {
   serde_json::from_value(json!({"id": format!("did:example:abc#frag{frag}"), "controller": "did:example:abc", "type": "JsonWebKey", "publicKeyJwk": {"kty": "OKP", "crv": "Ed25519", "x": pool_x(key)}})).unwrap()
 }
 
-pub fn exec(case: &[i64]) -> Outcome {
-  let rt = crate::jws_storage::rt();
-  match case[0] {
-    1 => {
-      let store = JwkMemStore::new(); let mut v = &case[2..];
+/// one history of JwkStorage operations on ANY shipped store (the in-memory one, Stronghold)
+fn run_jwk_history<S: JwkStorage>(store: &S, ops: &[i64], ed: KeyType, bls: KeyType, class: &str) -> Outcome {
+  let rt = crate::jws_storage::rt(); let mut v = ops;
+  // the Stronghold-backed store: error kinds are not compared, and a private member that is not a 32-byte key is refused at insertion
+  let sh = class.starts_with("stronghold"); let kerr = |k: &KeyStorageErrorKind| if sh { -1 } else { kerr(k) };
       let mut ids: Vec<KeyId> = vec![];                    // canonical index -> real key id
       let mut live: Vec<Option<(i64, String)>> = vec![];   // per created key: secret number and public x, None once deleted
       let mut obs = vec![]; let mut why: Option<String> = None; let mut n = 0i64;
@@ -51,7 +51,7 @@ pub fn exec(case: &[i64]) -> Outcome {
         let t = take1(&mut v).unwrap();
         match t {
           0 => { let k = take1(&mut v).unwrap(); let e = take1(&mut v).unwrap();
-            let kt = match k { 0 => JwkMemStore::ED25519_KEY_TYPE, 1 => JwkMemStore::BLS12381G2_KEY_TYPE, _ => KeyType::new("secp256k1") };
+            let kt = match k { 0 => ed.clone(), 1 => bls.clone(), _ => KeyType::new("secp256k1") };
             match rt.block_on(store.generate(kt, if e != 0 { JwsAlgorithm::EdDSA } else { JwsAlgorithm::ES256 })) {
               Ok(out) => { let x = out.jwk.try_okp_params().map(|p| p.x.clone()).unwrap_or_default();
                 let thumb = out.jwk.kid() == Some(out.jwk.thumbprint_sha256_b64().as_str()); let alg = match out.jwk.alg() { Some("EdDSA") => 0, Some(_) => 1, None => -1 };
@@ -62,7 +62,7 @@ pub fn exec(case: &[i64]) -> Outcome {
               Err(err) => { obs.extend([1, kerr(err.kind())]); if k == 0 && e != 0 { why.get_or_insert("generate of an Ed25519 / EdDSA key failed".into()); } }
             } }
           1 => { let (kind, private, alg, secret, d_ok) = (take1(&mut v).unwrap(), take1(&mut v).unwrap() != 0, take1(&mut v).unwrap(), take1(&mut v).unwrap(), take1(&mut v).unwrap() != 0);
-            let good = kind == 0 && private && alg == 0;
+            let good = kind == 0 && private && alg == 0 && (d_ok || !sh);
             match rt.block_on(store.insert(offered(kind, private, alg, secret, d_ok))) {
               Ok(id) => { if ids.contains(&id) { why.get_or_insert("insert returned a key id that is already in use".into()); } obs.extend([0, ids.len() as i64]); ids.push(id); live.push(Some((secret, pool_x(secret - 1000))));
                 if !good { why.get_or_insert("insert accepted a JWK that is not a fully private Ed25519 key with alg EdDSA".into()); } }
@@ -87,10 +87,11 @@ pub fn exec(case: &[i64]) -> Outcome {
         }
         n += 1;
       }
-      let mut o = Outcome::new(obs).class("jwk-store-history"); if let Some(w) = why { o = o.fail(&w); } o
-    }
-    2 => {
-      let store = KeyIdMemstore::new(); let mut v = &case[2..]; let mut obs = vec![]; let mut why: Option<String> = None;
+      let mut o = Outcome::new(obs).class(class); if let Some(w) = why { o = o.fail(&w); } o
+}
+/// one history of KeyIdStorage operations on any shipped store
+fn run_kid_history<S: KeyIdStorage>(store: &S, ops: &[i64], class: &str) -> Outcome {
+  let rt = crate::jws_storage::rt(); let mut v = ops; let mut obs = vec![]; let mut why: Option<String> = None;
       let mut map: std::collections::HashMap<i64, i64> = Default::default();
       let digest = |d: i64| MethodDigest::new(&method(d % 4, d / 4)).unwrap();
       while !v.is_empty() {
@@ -104,8 +105,23 @@ pub fn exec(case: &[i64]) -> Outcome {
           _ => { let d = take1(&mut v).unwrap(); match rt.block_on(store.delete_key_id(&digest(d))) { Ok(()) => { obs.push(0); if map.remove(&d).is_none() { why.get_or_insert("deleting an absent mapping succeeded".into()); } } Err(_) => { obs.push(2); if map.contains_key(&d) { why.get_or_insert("deleting a stored mapping failed".into()); } } } }
         }
       }
-      let mut o = Outcome::new(obs).class("keyid-store-history"); if let Some(w) = why { o = o.fail(&w); } o
-    }
+      let mut o = Outcome::new(obs).class(class); if let Some(w) = why { o = o.fail(&w); } o
+}
+fn stronghold() -> (identity_stronghold::StrongholdStorage, std::path::PathBuf) {
+  let _ = iota_stronghold::engine::snapshot::try_set_encrypt_work_factor(0);
+  static N: std::sync::atomic::AtomicU64 = std::sync::atomic::AtomicU64::new(0);
+  let mut file = std::env::temp_dir(); file.push(format!("vharness-stronghold-{}-{}", std::process::id(), N.fetch_add(1, std::sync::atomic::Ordering::SeqCst))); file.set_extension("stronghold");
+  let sm = iota_sdk::client::secret::stronghold::StrongholdSecretManager::builder().password(iota_sdk::client::Password::from("secure_password".to_owned())).build(&file).unwrap();
+  (identity_stronghold::StrongholdStorage::new(sm), file)
+}
+pub fn exec(case: &[i64]) -> Outcome {
+  let rt = crate::jws_storage::rt();
+  match case[0] {
+    1 => run_jwk_history(&JwkMemStore::new(), &case[2..], JwkMemStore::ED25519_KEY_TYPE, JwkMemStore::BLS12381G2_KEY_TYPE, "jwk-store-history"),
+    2 => run_kid_history(&KeyIdMemstore::new(), &case[2..], "keyid-store-history"),
+    // 11 / 12: the same histories on the Stronghold-backed store (a throw-away snapshot file per case)
+    11 => { let (st, file) = stronghold(); let o = run_jwk_history(&st, &case[2..], identity_stronghold::ED25519_KEY_TYPE, identity_stronghold::BLS12381G2_KEY_TYPE, "stronghold-jwk-history"); drop(st); let _ = std::fs::remove_file(&file); o }
+    12 => { let (st, file) = stronghold(); let o = run_kid_history(&st, &case[2..], "stronghold-keyid-history"); drop(st); let _ = std::fs::remove_file(&file); o }
     3 => {
       let n = case[1] as usize; let rounds = 1500;
       let mut worst = (1i64, 1i64);
@@ -126,13 +142,45 @@ pub fn exec(case: &[i64]) -> Outcome {
       if worst != (1, 1) { o = o.fail("racing inserts of one digest: not exactly one succeeded, or the digest does not map to the winner's key id"); }
       o
     }
+    // 13: BBS+ keys through JwkStorageBbsPlusExt (oracle only): [13, store (0 memory, 1 Stronghold), ciphersuite (0 SHA-256, 1 SHAKE-256)]
+    13 => {
+      use identity_storage::JwkStorageBbsPlusExt; use jsonprooftoken::jpa::algs::ProofAlgorithm; use std::str::FromStr;
+      use zkryptium::bbsplus::ciphersuites::{Bls12381Sha256, Bls12381Shake256}; use zkryptium::schemes::algorithms::BBSplus; use zkryptium::schemes::generics::Signature;
+      let alg = if case[2] == 0 { ProofAlgorithm::BLS12381_SHA256 } else { ProofAlgorithm::BLS12381_SHAKE256 };
+      fn verifies(public_jwk: &Jwk, signature: &[u8], data: &[Vec<u8>], header: &[u8]) -> bool {
+        let Some(alg) = public_jwk.alg().and_then(|a| ProofAlgorithm::from_str(a).ok()) else { return false };
+        let Ok((_, pk)) = identity_storage::key_storage::bls::expand_bls_jwk(public_jwk) else { return false };
+        let Ok(bytes) = <&[u8; 80]>::try_from(signature) else { return false };
+        match alg { ProofAlgorithm::BLS12381_SHA256 => Signature::<BBSplus<Bls12381Sha256>>::from_bytes(bytes).and_then(|s| s.verify(&pk, Some(data), Some(header))).is_ok(),
+                    ProofAlgorithm::BLS12381_SHAKE256 => Signature::<BBSplus<Bls12381Shake256>>::from_bytes(bytes).and_then(|s| s.verify(&pk, Some(data), Some(header))).is_ok(), _ => false }
+      }
+      async fn history<S: JwkStorage + JwkStorageBbsPlusExt>(store: &S, kt: KeyType, alg: ProofAlgorithm) -> Option<String> {
+        let data: Vec<Vec<u8>> = vec![b"first message".to_vec(), b"second message".to_vec(), Vec::new()]; let header: &[u8] = b"header";
+        let a = match store.generate_bbs(kt.clone(), alg).await { Ok(o) => o, Err(_) => return Some("generate_bbs failed for a supported key type and algorithm".into()) };
+        let b = match store.generate_bbs(kt, alg).await { Ok(o) => o, Err(_) => return Some("generate_bbs failed".into()) };
+        if a.key_id == b.key_id { return Some("generate_bbs returned a key id twice".into()); }
+        for j in [&a.jwk, &b.jwk] { if !j.is_public() || j.kid() != Some(j.thumbprint_sha256_b64().as_str()) || j.alg() != Some(alg.to_string().as_str()) { return Some("generate_bbs output is not a public-only JWK with kid = thumbprint and the requested alg".into()); } }
+        let sa = match store.sign_bbs(&a.key_id, &data, header, &a.jwk).await { Ok(s) => s, Err(_) => return Some("sign_bbs failed for a stored key".into()) };
+        let sb = match store.sign_bbs(&b.key_id, &data, header, &b.jwk).await { Ok(s) => s, Err(_) => return Some("sign_bbs failed for a stored key".into()) };
+        if !verifies(&a.jwk, &sa, &data, header) || !verifies(&b.jwk, &sb, &data, header) { return Some("a BBS+ signature does not verify under the public JWK of its key (the ciphersuite is the one the JWK names)".into()); }
+        if verifies(&b.jwk, &sa, &data, header) || verifies(&a.jwk, &sb, &data, header) { return Some("a BBS+ signature verifies under another stored key".into()); }
+        if store.delete(&a.key_id).await.is_err() { return Some("deleting a stored key failed".into()); }
+        if !matches!(store.exists(&a.key_id).await, Ok(false)) || store.sign_bbs(&a.key_id, &data, header, &a.jwk).await.is_ok() || store.delete(&a.key_id).await.is_ok() { return Some("a deleted key id still exists, signs or deletes".into()); }
+        match store.sign_bbs(&b.key_id, &data, header, &b.jwk).await { Ok(s) if verifies(&b.jwk, &s, &data, header) => None, _ => Some("the other key was affected by the deletion".into()) }
+      }
+      let why = if case[1] == 0 { rt.block_on(history(&JwkMemStore::new(), JwkMemStore::BLS12381G2_KEY_TYPE, alg)) }
+                else { let (st, file) = stronghold(); let w = rt.block_on(history(&st, identity_stronghold::BLS12381G2_KEY_TYPE, alg)); drop(st); let _ = std::fs::remove_file(&file); w };
+      let o = Outcome::new(vec![-5555]).class("bbs-history"); match why { Some(w) => o.fail(&w), None => o }
+    }
     _ => Outcome::new(vec![-998]).fail("bad case kind"),
   }
 }
 
 pub fn gen(rng: &mut Rng, thorough: bool, sink: &mut Sink) {
+  for st in 0..2 { for cs in 0..2 { sink.case(vec![13, st, cs], "bbs-history"); } }
   // every alg spelling on a fully private Ed25519 key offered for insertion, and on the public key handed to sign
-  for alg in -1..=7i64 { sink.case(vec![1, 3, 1, 0, 1, alg, 1000, 1, 0, 0, 1, 2, 0, 0, alg], "alg-table"); }
+  for alg in -1..=7i64 { sink.case(vec![1, 3, 1, 0, 1, alg, 1000, 1, 0, 0, 1, 2, 0, 0, alg], "alg-table"); sink.case(vec![11, 3, 1, 0, 1, alg, 1000, 1, 0, 0, 1, 2, 0, 0, alg], "stronghold-alg-table"); }
+  let mut hk = 0;
   for _ in 0..(if thorough { 3000 } else { 400 }) {
     let len = rng.range(1, if thorough { 60 } else { 30 }); let mut c = vec![1, len]; let mut created = 0i64;
     for _ in 0..len {
@@ -145,8 +193,12 @@ pub fn gen(rng: &mut Rng, thorough: bool, sink: &mut Sink) {
         _ => { let i = if rng.chance(3, 4) && created > 0 { rng.range(0, created - 1) } else { created + rng.range(0, 3) }; c.extend([4, i]); }
       }
     }
+    // the first histories also run on the Stronghold-backed store
+    if hk < (if thorough { 400 } else { 60 }) { let mut c2 = c.clone(); c2[0] = 11; sink.case(c2, "stronghold-jwk-history"); }
+    hk += 1;
     sink.case(c, "jwk-history");
   }
-  for _ in 0..(if thorough { 2000 } else { 300 }) { let len = rng.range(1, 40); let mut c = vec![2, len]; for _ in 0..len { match rng.below(5) { 0 | 1 => c.extend([0, rng.range(0, 7), rng.range(0, 9)]), 2 | 3 => c.extend([1, rng.range(0, 7)]), _ => c.extend([2, rng.range(0, 7)]) } } sink.case(c, "keyid-history"); }
+  let mut kk = 0;
+  for _ in 0..(if thorough { 2000 } else { 300 }) { let len = rng.range(1, 40); let mut c = vec![2, len]; for _ in 0..len { match rng.below(5) { 0 | 1 => c.extend([0, rng.range(0, 7), rng.range(0, 9)]), 2 | 3 => c.extend([1, rng.range(0, 7)]), _ => c.extend([2, rng.range(0, 7)]) } } if kk < (if thorough { 400 } else { 60 }) { let mut c2 = c.clone(); c2[0] = 12; sink.case(c2, "stronghold-keyid-history"); } kk += 1; sink.case(c, "keyid-history"); }
   for n in [2i64, 3, 4, 8, 16] { let steps = (n * 4) as usize; let mut sched: Vec<i64> = (0..steps * 3).map(|_| rng.range(1, n)).collect(); for t in 1..=n { sched.extend([t, t, t, t]); } let mut c = vec![3, n, sched.len() as i64]; c.extend(sched); sink.case(c, "race"); }
 }
